@@ -738,3 +738,77 @@ func sortStrings(a []string) {
 		}
 	}
 }
+
+// pathExact renders a path-valued expression canonically, resolving local
+// variables that have a single definition: "param:zipfile",
+// "Dir(param:zipfile)", "Join(Dir(call:…downloadDir),…)", `Base(x)+"*.tmp"`.
+func (c *Ctx) pathExact(f *Fn, e ast.Expr, depth int) string {
+	info := f.Info()
+	e = ast.Unparen(e)
+	if depth > 8 {
+		return exprString(e)
+	}
+	if tv, ok := info.Types[e]; ok && tv.Value != nil {
+		return tv.Value.ExactString()
+	}
+	switch x := e.(type) {
+	case *ast.BinaryExpr:
+		return c.pathExact(f, x.X, depth+1) + x.Op.String() + c.pathExact(f, x.Y, depth+1)
+	case *ast.CallExpr:
+		name := calleeName(info, x)
+		short := name
+		switch name {
+		case "path/filepath.Join", "path/filepath.Dir", "path/filepath.Base", "path/filepath.Clean":
+			short = strings.TrimPrefix(name, "path/filepath.")
+		default:
+			if strings.HasPrefix(name, "mod/modcache.") {
+				short = "call:" + name
+			}
+		}
+		var args []string
+		for _, a := range x.Args {
+			args = append(args, c.pathExact(f, a, depth+1))
+		}
+		return short + "(" + strings.Join(args, ",") + ")"
+	case *ast.Ident:
+		o := identObj(info, x)
+		v, ok := o.(*types.Var)
+		if !ok {
+			return x.Name
+		}
+		if isParamOf(f, v) {
+			return "param:" + v.Name()
+		}
+		var defs []ast.Expr
+		multi := false
+		ast.Inspect(f.Decl.Body, func(nd ast.Node) bool {
+			if as, ok := nd.(*ast.AssignStmt); ok {
+				for i, l := range as.Lhs {
+					if identObj(info, l) != o {
+						continue
+					}
+					if len(as.Rhs) == len(as.Lhs) {
+						defs = append(defs, as.Rhs[i])
+					} else if len(as.Rhs) == 1 && i == 0 {
+						defs = append(defs, as.Rhs[0])
+					} else {
+						multi = true
+					}
+				}
+			}
+			return true
+		})
+		if len(defs) >= 1 && !multi {
+			// all definitions must agree
+			first := c.pathExact(f, defs[0], depth+1)
+			for _, d := range defs[1:] {
+				if c.pathExact(f, d, depth+1) != first {
+					return "var:" + v.Name()
+				}
+			}
+			return first
+		}
+		return "var:" + v.Name()
+	}
+	return exprString(e)
+}
